@@ -35,7 +35,12 @@ DATA = [
     (EX.alice, RDF.type, EX.Student), (EX.alice, EX.name, Literal("Alice")), (EX.bob, RDF.type, EX.Person),
     (EX.Student, RDFS.subClassOf, EX.Person), (EX.carol, EX.knows, EX.bob),
 ]
-ONT = [(EX.Person, RDFS.subClassOf, EX.Agent), (EX.knows, RDFS.domain, EX.Person), (EX.Agent, RDF.type, OWL.Class)]
+_l1, _l2, _l3, _anon = BNode("ontl1"), BNode("ontl2"), BNode("ontl3"), BNode("ontanon")
+ONT = [(EX.Person, RDFS.subClassOf, EX.Agent), (EX.knows, RDFS.domain, EX.Person), (EX.Agent, RDF.type, OWL.Class),
+       # individuals, an enumeration of them (RDF list cells are blank nodes that point at individuals) and an anonymous node about one
+       (EX.Red, RDF.type, OWL.NamedIndividual), (EX.Red, RDF.type, EX.Colour), (EX.Green, RDF.type, OWL.NamedIndividual), (EX.Blue, RDF.type, OWL.NamedIndividual),
+       (EX.Colour, RDF.type, OWL.Class), (EX.Colour, OWL.oneOf, _l1), (_l1, RDF.first, EX.Red), (_l1, RDF.rest, _l2), (_l2, RDF.first, EX.Green), (_l2, RDF.rest, _l3),
+       (_l3, RDF.first, EX.Blue), (_l3, RDF.rest, RDF.nil), (_anon, EX.colour, EX.Green), (_anon, EX.note, Literal("anonymous"))]
 
 
 RULES_ONLY = {
